@@ -11,5 +11,9 @@ HARNESSES = [
                'thorough': [{'defines': ['NBLK=6'], 'bound': 'every tree shape on 6 blocks, 0..2 earlier invalidations', 'timeout': 1700, 'jobs': 16},
                             {'defines': ['NBLK=5'], 'bound': 'every tree shape on 5 blocks', 'timeout': 400}]}},
 ]
+import importlib.util as _ilu
+_rp = _ilu.spec_from_file_location('realspec', os.path.join(os.path.dirname(os.path.abspath(__file__)), '..', 'real', 'spec.py'))
+_real = _ilu.module_from_spec(_rp); _rp.loader.exec_module(_real)
+HARNESSES += _real.INV_HARNESSES
 EXPLANATION = 'The real BlockTree<BtcBlock> (BaseBlockTree invalidation / revalidation / tip maintenance / fork resolution by work) is executed symbolically over every tree shape and mark placement inside the bound.'
 ASSUMPTIONS = ['block hashes are preset small ids (no SHA-256); regtest parameters (no retargeting)', 'set<BlockIndex*> iteration order is the one allocation order of the run (work ties are broken by it)']
